@@ -311,6 +311,14 @@ pub async fn exec_c16(script: Value) -> ExecResult {
         if elapsed < ttl_ms + 2_000 {
             advance(ttl_ms + 2_000 - elapsed).await;
         }
+        if situation == "log_restart" {
+            // no snapshot: the node restarts after the token has expired and replays the login entry from its log
+            stop_node(1).await;
+            let n = start_node(&root, 1, true, None, &cfg.node).await.map_err(|e| Violation::new("harness.start", e.to_string()))?;
+            vensure!(wait_leader(&n, 20_000).await.is_some(), "C16.no_leader", "no leader after the restart");
+            advance(13_000).await;
+            sim::count("probe.restart_with_log_replay_after_expiry", 1);
+        }
         let issuer = node(1).unwrap();
         let tok_new = login_api(&issuer, "admin", "admin").await.ok_or_else(|| Violation::new("harness.login", "second login refused".to_string()))?;
         let t_new = sim::now_us() / 1000;
@@ -507,7 +515,7 @@ impl Check for C16 {
     fn generate(&self, seed: u64, _tier: Tier) -> Value {
         let mut rng = Rng::derive(seed, "C16.gen", 0);
         let mut cfg = NCfg::default();
-        let situation = *rng.pick(&["single", "single", "snapshot_restart", "snapshot_restart", "other_node", "leader_down"]);
+        let situation = *rng.pick(&["single", "log_restart", "snapshot_restart", "snapshot_restart", "other_node", "leader_down"]);
         cfg.nodes = if situation == "other_node" || situation == "leader_down" { 2 } else { 1 };
         cfg.node.auth = true;
         cfg.node.cluster_token = "ct-9f2c".to_string();
@@ -653,6 +661,13 @@ pub async fn exec_c17(script: Value) -> ExecResult {
         if elapsed < ttl_ms + 2_000 {
             advance(ttl_ms + 2_000 - elapsed).await;
         }
+        if situation == "log_restart" {
+            stop_node(1).await;
+            let n = start_node(&root, 1, true, None, &cfg.node).await.map_err(|e| Violation::new("harness.start", e.to_string()))?;
+            vensure!(wait_leader(&n, 20_000).await.is_some(), "C17.no_leader", "no leader after the restart");
+            advance(13_000).await;
+            sim::count("probe.restart_with_log_replay_after_expiry", 1);
+        }
         let n1 = node(1).unwrap();
         let mut sessions: BTreeMap<&str, String> = BTreeMap::new();
         for (name, _) in &role_sets {
@@ -794,7 +809,7 @@ impl Check for C17 {
     fn generate(&self, seed: u64, _tier: Tier) -> Value {
         let mut rng = Rng::derive(seed, "C17.gen", 0);
         let mut cfg = NCfg::default();
-        let situation = *rng.pick(&["single", "single", "snapshot_restart", "other_node"]);
+        let situation = *rng.pick(&["single", "log_restart", "snapshot_restart", "other_node"]);
         cfg.nodes = if situation == "other_node" { 2 } else { 1 };
         cfg.node.console_login_timeout = rng.range(20, 90) as i32;
         cfg.node.snapshot_log_size = if situation == "snapshot_restart" { rng.range(20, 40) } else { 10_000 };
